@@ -579,7 +579,7 @@ pub fn synthetic_project(seed: u64) -> Project {
                     }
                     10 if use_enum => "Color".to_string(),
                     11 if poison && rng.chance(1, 2) => ["Date", "bigint", "Map<string, number>", "Set<string>"][rng.below(4)].to_string(),
-                    _ => match rng.below(16) {
+                    _ => match rng.below(28) {
                         // template literals with regex metacharacters and slashes in the constant parts
                         0 => "`/api/${string}/items`".to_string(),
                         1 => "`${number}px`".to_string(),
@@ -596,6 +596,20 @@ pub fn synthetic_project(seed: u64) -> Project {
                         13 => ["`${\"\"}`", "`prefix-${\"\"}`", "`line one\nline two ${number}`", "`${string}\\r\\n`", "`abc`", "`${number}`"][rng.below(6)].to_string(),
                         11 => "\"line\\nbreak\" | \"tab\\t\" | \"\\u2028sep\" | \"\u{1F600}\" | \"</script>\"".to_string(),
                         12 => "-0 | 1e21 | 0.1 | -1.5e-7 | 123456789012345680000".to_string(),
+                        // custom formats (declared in the settings of every synthetic project)
+                        14 => ["StringFormat<\"password\">", "StringFormat<\"Undeclared\">", "NumberFormat<\"age\">", "Sf", "SfChild", "Nf", "NfChild"][rng.below(7)].to_string(),
+                        15 => ["Uint8Array", "Float64Array", "BigInt64Array", "Uint8Array | string"][rng.below(4)].to_string(),
+                        16 => format!("Record<\"a\" | \"b\", {}>", r(&mut rng)),
+                        17 => if use_enum { format!("Record<Color, {}>", r(&mut rng)) } else { format!("Record<number, {}>", r(&mut rng)) },
+                        18 => format!("{}<{}, \"f0\" | \"f1\">", ["Omit", "Pick"][rng.below(2)], r_obj(&mut rng)),
+                        19 => format!("[{}, string?]", r(&mut rng)),
+                        20 => [format!("{}[][]", r(&mut rng)), format!("Array<Array<{} | null>>", r(&mut rng)), format!("ReadonlyArray<{}>", r(&mut rng))][rng.below(3)].clone(),
+                        21 => ["Object", "object", "{}", "Record<string, never>", "Record<never, string>"][rng.below(5)].to_string(),
+                        22 => format!("Partial<Record<\"x\" | \"y\", {}>>", r(&mut rng)),
+                        23 => format!("Map<string, {}>", r(&mut rng)),
+                        24 => format!("Set<{}>", r(&mut rng)),
+                        25 => format!("{} & {{ brand{}: true }}", r_obj(&mut rng), f),
+                        26 => format!("Exclude<{} | null | undefined, undefined>", r(&mut rng)),
                         _ => prim[rng.below(prim.len() - 1)].to_string(),
                     },
                 };
@@ -797,6 +811,11 @@ pub fn synthetic_project(seed: u64) -> Project {
             }
         }
         if k == 0 {
+            src.push_str("export type Sf = StringFormat<\"SfParent\">;\nexport type SfChild = StringFormatExtends<Sf, \"SfChild\">;\nexport type Nf = NumberFormat<\"NfParent\">;\nexport type NfChild = NumberFormatExtends<Nf, \"NfChild\">;\n");
+        } else {
+            src.push_str("import { Sf, SfChild, Nf, NfChild } from \"./entry\";\n");
+        }
+        if k == 0 {
             src.push_str(&enum_decl);
             if use_generic {
                 src.push_str("export type Box<T> = { value: T; tag?: string };\n");
@@ -865,7 +884,7 @@ pub fn synthetic_project(seed: u64) -> Project {
         origin: "verif/sim/src/gen.rs synthetic_project".into(),
         origin_kind: "synthetic".into(),
         entry: "/p/entry.ts".into(),
-        settings: Settings { string_formats: vec![], number_formats: vec![] },
+        settings: Settings { string_formats: vec!["SfChild".into(), "SfParent".into(), "password".into()], number_formats: vec!["NfChild".into(), "NfParent".into(), "age".into()] },
         module: "esm".into(),
         files,
     }
